@@ -256,14 +256,14 @@ def run_configs(P):
     # the prange kernel under every thread count
     import numba
     from hdc.algo.ops.ws2doptvplc import ws2doptvplc_tyx
-    nt, nr, nc = 40, 16, 8
+    nt, nr, nc = 40, 37, 4          # a row count that no thread count 2..16 divides (a blocked schedule must not drop the remainder)
     tt = np.arange(nt)
     cb = (4000 + 2500 * np.sin(tt[:, None, None] / 6.0 + rng.uniform(0, 6, (1, nr, nc))) + rng.normal(0, 300, (nt, nr, nc))).round()
     cb[rng.random(cb.shape) < 0.15] = -3000
     cb = cb.astype("int16")
     hashes = {}
     maxt = numba.config.NUMBA_NUM_THREADS
-    counts = [n for n in (list(range(1, 17)) if thorough else [1, 2, 4, 8, 16]) if n <= maxt]
+    counts = [n for n in (list(range(1, 17)) if thorough else [1, 2, 3, 4, 8, 16]) if n <= maxt]
     for n in counts:
         numba.set_num_threads(n)
         for rep in range(2):
